@@ -484,6 +484,7 @@ MODULES = {
     'C19': ['C19', 'C19Rx', 'C19Parse'],
     'C20': ['C20', 'C20Rx', 'C20Parse'],
 }
+MODULES['C01'] += ['C01GenMatch', 'C01GenTag']; MODULES['C05'] += ['C05GenFrame']   # match_selectors and its leaf tests translated from the source (gen/gen_py_matchsel.py)
 AUDITS = {
     'C01': ['C01', 'C01Attr', 'C01Sat', 'C01Has', 'C01Parse'],
     'C02': ['C02', 'C02Site', 'C02Parse'],
@@ -501,6 +502,7 @@ AUDITS = {
     'C19': ['C19', 'C19Rx', 'C19Parse'],
     'C20': ['C20', 'C20Rx', 'C20Parse'],
 }
+AUDITS['C01'] += ['C01GenMatch', 'C01GenTag']; AUDITS['C05'] += ['C05GenFrame']
 # `CxxRx` modules restate the property theorems about the regular expressions REGENERATED from the source
 # (the hand-written scanners are proved equal to the regex-engine model on them in lean/SoupVerif/Refine/).
 
